@@ -20,7 +20,10 @@ set_option maxHeartbeats 8000000
 /-- the round body of this file is, expression for expression, the round body of the parallel-ECB file (both are
 regenerated; the comparison is by unfolding, so a rewrite of one of the two files needs this lemma re-proved) -/
 theorem v64c_enc_round_eq (r0 r1 r2 r3 : BitVec 16) (sk : BitVec 32) : v64c_enc_round r0 r1 r2 r3 sk = v64p_enc_round r0 r1 r2 r3 sk := by
-  simp only [v64c_enc_round, v64p_enc_round, v64c_sbox, v64p_sbox, gen_unfold]
+  first
+  | (simp only [v64c_enc_round, v64p_enc_round, v64c_sbox, v64p_sbox, gen_unfold]; done)
+  | (refine Prod.ext ?_ (Prod.ext ?_ (Prod.ext ?_ ?_)) <;>
+      (bv_bits 16 <;> ((try simp [v64c_enc_round, v64p_enc_round, v64c_sbox, v64p_sbox, gen_unfold]); (try ac_rfl))))
 
 /-- one lane of the vector round = the scalar 32-bit round of the C library  -/
 theorem v64c_enc_round_scalar (t : Rows16) (sk : BitVec 32) :
